@@ -80,6 +80,12 @@ func TestVerifReplay(t *testing.T) {
 				SetCompositionResourceName(cd, ResourceName(rn))
 				ctrl := true
 				cd.SetOwnerReferences([]metav1.OwnerReference{{APIVersion: "example.org/v1", Kind: "XR", Name: "parent-xr", UID: "xr-uid", Controller: &ctrl}})
+				if rn == "keep" {
+					// still there, but on its way out (a finalizer holds it): functions must still see it
+					now := metav1.Now()
+					cd.SetDeletionTimestamp(&now)
+					cd.SetFinalizers([]string{"example.org/hold"})
+				}
 				return cd
 			}
 			var writes []string
